@@ -70,6 +70,9 @@ theorem inv_acqW {s : State} {i : Nat} {th : Th} {a : Abs} {K : Prog}
           exact List.mem_append_right _ (List.mem_append_right _ (hG.own b hb th (hij ▸ hth)))
         · simp only [hij, if_false] at hj
           exact hG.own b hb thj hj
+      · exact ordered_mono hG.ordered hth (fun x hx => List.mem_append_right _ (List.mem_append_right _ hx))
+      · exact hG.rawNoStore
+      · exact hG.noWriteAfterStore
     · refine ⟨_, hK, ?_⟩
       have hfl := hG.wfree hw
       have hawl : a.wl = false := by
@@ -153,6 +156,9 @@ theorem inv_acqR {s : State} {i : Nat} {th : Th} {a : Abs} {K : Prog}
           exact List.mem_append_right _ (hG.own b hb th (hij ▸ hth))
         · simp only [hij, if_false] at hj
           exact hG.own b hb thj hj
+      · exact ordered_mono hG.ordered hth (fun x hx => List.mem_append_right _ hx)
+      · exact hG.rawNoStore
+      · exact hG.noWriteAfterStore
     · refine ⟨_, hK, ?_⟩
       refine { hW := ?_, hR := ⟨fun _ => List.mem_cons_self, fun _ => rfl⟩, lkHeld := ?_, wlw := ?_,
                wlH := hok.wlH, wpH := hok.wpH, wcH := hok.wcH, tvok := hok.tvok, nofault := hok.nofault, mread := hok.mread, lv := hok.lv,
@@ -223,6 +229,9 @@ theorem inv_relW {s : State} {i : Nat} {th : Th} {a : Abs} {K : Prog}
         exact hG.own b hb th (hij ▸ hth)
       · simp only [hij, if_false] at hj
         exact hG.own b hb thj hj
+    · exact ordered_mono hG.ordered hth (fun x hx => hx)
+    · exact hG.rawNoStore
+    · exact hG.noWriteAfterStore
   · refine ⟨_, hK, ?_⟩
     refine { hW := ⟨fun h => (by cases h), fun h => (by cases h)⟩, hR := hok.hR, lkHeld := (by intro h; cases h),
              wlw := (by intro h; cases h), wlH := (by intro h; rw [hwl] at h; cases h),
@@ -302,6 +311,9 @@ theorem inv_relR {s : State} {i : Nat} {th : Th} {a : Abs} {K : Prog}
         exact hG.own b hb th (hij ▸ hth)
       · simp only [hij, if_false] at hj
         exact hG.own b hb thj hj
+    · exact ordered_mono hG.ordered hth (fun x hx => hx)
+    · exact hG.rawNoStore
+    · exact hG.noWriteAfterStore
   · refine ⟨_, hK, ?_⟩
     refine { hW := hok.hW, hR := ⟨fun h => (by cases h), fun h => ?_⟩, lkHeld := (by intro h; cases h),
              wlw := hok.wlw, wlH := hok.wlH, wpH := hok.wpH, wcH := hok.wcH, tvok := hok.tvok,
